@@ -1,7 +1,7 @@
 (* C02 - constructors denote exactly the angle and vector they are given.  Pinned theorems only. *)
 From Coq Require Import ZArith List Bool Reals Lra.
 From Flocq Require Import Core BinarySingleNaN.
-Require Import GV.FloatBase GV.FloatLemmas GV.AngleM GV.AngleProofs GV.GeonumM GV.GeonumProofs GV.NewProofs GV.CtorProofs GV.ClosureProofs GV.SumUpper.
+Require Import GV.FloatBase GV.FloatLemmas GV.AngleM GV.AngleProofs GV.GeonumM GV.GeonumProofs GV.NewProofs GV.CtorProofs GV.ClosureProofs GV.SumUpper GV.PiBounds GV.TrigProofs GV.DotValue GV.DistValue GV.DirProofs GV.SumDir GV.ProdProofs GV.CartCtor GV.Atan2Ideal.
 Open Scope R_scope.
 
 (* k quarter turns written as Angle::new(k, 2.0): exactly blade k, remainder 0 *)
@@ -85,3 +85,49 @@ intros t Ft Bt Ng. destruct (lift_total_nonneg t Ft Bt) as [F P]. split; [exact 
 now apply lift_total_upper.
 Qed.
 Print Assumptions C02_lift_range.
+
+(* Angle::new_from_cartesian(x, y) points along (x, y) (REAL pi): canonical, at most one turn, and its cosine and
+   sine are those of an angle theta with (x, y) = r (cos theta, sin theta) within u2 + 1e-10 + 3e-14, for any
+   libm whose atan2 satisfies atan2_acc with u2 *)
+Theorem C02_from_cartesian_direction : forall (L : libm) (u2 : R) x y, atan2_acc L u2 -> fin x -> fin y ->
+  let a := new_from_cartesian L x y in
+  Canon a /\ (blade a <= 4)%Z /\
+  exists theta, R_ x = sqrt (R_ x * R_ x + R_ y * R_ y) * cos theta /\ R_ y = sqrt (R_ x * R_ x + R_ y * R_ y) * sin theta /\
+    Rabs (cos (dirR a) - cos theta) <= u2 + R_ eps10 + 3 / 100000000000000 /\
+    Rabs (sin (dirR a) - sin theta) <= u2 + R_ eps10 + 3 / 100000000000000.
+Proof. exact new_from_cartesian_dir. Qed.
+Print Assumptions C02_from_cartesian_direction.
+
+(* Geonum::new_from_cartesian(x, y) reproduces the vector (x, y) component by component within
+   r (6*2^-53 + u2 + 1e-10 + 3e-14), r = sqrt(x^2 + y^2) >= 2^-500 *)
+Theorem C02_from_cartesian_value : forall (L : libm) (u2 : R) x y, atan2_acc L u2 -> fin x -> fin y ->
+  fin (fsqrt (fadd (fmul x x) (fmul y y))) -> fin (fadd (fmul x x) (fmul y y)) ->
+  bpow radix2 (-1000) <= R_ x * R_ x + R_ y * R_ y ->
+  let g := gnew_from_cartesian L x y in
+  let r := sqrt (R_ x * R_ x + R_ y * R_ y) in
+  let T := r * (6 * / 9007199254740992 + u2 + R_ eps10 + 3 / 100000000000000) in
+  Canon (ang g) /\ Rabs (R_ (mag g) * cos (dirR (ang g)) - R_ x) <= T /\ Rabs (R_ (mag g) * sin (dirR (ang g)) - R_ y) <= T.
+Proof. exact gnew_from_cartesian_value. Qed.
+Print Assumptions C02_from_cartesian_value.
+
+(* Angle::new(at / PI, 1.0) for a finite at in [-PI, PI] (no libm): canonical, at most one turn, pointing along
+   at modulo whole turns within 1e-10 + 3e-14 *)
+Theorem C02_radians_direction : forall (at_ : F), fin at_ -> Rabs (R_ at_) <= R_ PI ->
+  let a := new (fdiv at_ PI) one in
+  Canon a /\ (blade a <= 4)%Z /\
+  exists J : Z, (0 <= J)%Z /\ Rabs (dirR a - (R_ at_ + 2 * Rtrigo1.PI * IZR J)) <= R_ eps10 + 3 / 100000000000000.
+Proof. exact new_of_radians. Qed.
+Print Assumptions C02_radians_direction.
+
+(* the general path of Angle::new with the REAL pi: the result points along the computed total modulo whole turns *)
+Theorem C02_new_direction : forall p d, fast_path p d = false ->
+  fin (total_angle p d) -> Rabs (R_ (total_angle p d)) <= bpow radix2 42 ->
+  exists J : Z, (0 <= J)%Z /\
+    Rabs (dirR (new p d) - (R_ (total_angle p d) + 2 * Rtrigo1.PI * IZR J))
+      <= R_ eps10 + 2 / 100000000000000 + Rabs (R_ (total_angle p d)) / 1000000000000000.
+Proof. exact new_dirR. Qed.
+Print Assumptions C02_new_direction.
+
+Theorem C02_atan2_premise_inhabited : exists L : libm, atan2_acc L (/ 1125899906842624).
+Proof. exists ideal_libm2. destruct ideal2_hyps as (_ & _ & H & _). exact H. Qed.
+Print Assumptions C02_atan2_premise_inhabited.
